@@ -168,6 +168,33 @@ def translate_finalize(en):
 # ---------------------------------------------------------------------------------------------
 
 
+_PRED_NODES = (ast.Expression, ast.Compare, ast.BoolOp, ast.UnaryOp, ast.And, ast.Or, ast.Not, ast.Eq, ast.NotEq, ast.In,
+               ast.NotIn, ast.Is, ast.IsNot, ast.Name, ast.Attribute, ast.Subscript, ast.Tuple, ast.List, ast.Set, ast.Load)
+
+
+def _state_predicate(test, var, where):
+    """The set of FileState names for which `test` (an expression over the variable `var` and the constants of
+    enums.py: comparisons, membership, and/or/not) is true -- by evaluating it for every member of the enum.  A
+    rewrite that keeps the set is accepted, one that changes it is translated."""
+    for n in ast.walk(test):
+        if not isinstance(n, _PRED_NODES):
+            raise TranslatorError(f"{where}: state test not understood: {ast.unparse(test)[:80]!r}")
+        if isinstance(n, ast.Name) and n.id not in (var, "FileState", "FileRole", "FILE_STATES_BY_ROLE", "FILE_ROLE_BY_STATE"):
+            raise TranslatorError(f"{where}: state test uses {n.id!r}: {ast.unparse(test)[:80]!r}")
+    en = importlib.import_module("stepup.core.enums")
+    code = compile(ast.Expression(body=test), "<state test>", "eval")
+    env = {"FileState": en.FileState, "FileRole": en.FileRole, "FILE_STATES_BY_ROLE": en.FILE_STATES_BY_ROLE,
+           "FILE_ROLE_BY_STATE": en.FILE_ROLE_BY_STATE}
+    out = []
+    for st in en.FileState:
+        try:
+            if eval(code, {"__builtins__": {}}, dict(env, **{var: st})):  # noqa: S307 - whitelisted node types only
+                out.append(st.name)
+        except Exception as e:  # noqa: BLE001
+            raise TranslatorError(f"{where}: state test cannot be evaluated for {st.name}: {e}") from e
+    return out
+
+
 def translate_before_delete():
     tree = parse_module(f"{CORE}/file.py")
     fn = find_function(tree, "before_delete", cls="File")
@@ -178,21 +205,17 @@ def translate_before_delete():
     if not ok:
         raise TranslatorError("File.before_delete: body shape changed")
     top = body[1]
-    t1 = top.test
-    if not (isinstance(t1, ast.Compare) and ast.unparse(t1.left) == "state" and len(t1.ops) == 1
-            and isinstance(t1.ops[0], ast.Eq)):
-        raise TranslatorError("File.before_delete: first test is not `state == FileState.X`")
-    vol = _fs_tuple(t1.comparators[0], "File.before_delete")
+    # the two tests of the if / elif are evaluated for every FileState: which states queue the path as volatile
+    # (first branch) and which with their hash (second branch, only reached when the first test is false)
+    in_first = _state_predicate(top.test, "state", "File.before_delete")
     if [ast.unparse(s) for s in top.body] != ["self.graph.to_be_deleted[self.path] = None"]:
         raise TranslatorError("File.before_delete: volatile branch changed")
     if not (len(top.orelse) == 1 and isinstance(top.orelse[0], ast.If) and not top.orelse[0].orelse):
         raise TranslatorError("File.before_delete: elif branch changed")
     el = top.orelse[0]
-    t2 = el.test
-    if not (isinstance(t2, ast.Compare) and ast.unparse(t2.left) == "state" and len(t2.ops) == 1
-            and isinstance(t2.ops[0], ast.In)):
-        raise TranslatorError("File.before_delete: second test is not `state in (...)`")
-    hashed = _fs_tuple(t2.comparators[0], "File.before_delete")
+    in_second = _state_predicate(el.test, "state", "File.before_delete")
+    vol = in_first
+    hashed = [x for x in in_second if x not in in_first]
     want = ["file_hash = self.get_hash()",
             "if not file_hash.is_unknown:\n    self.graph.to_be_deleted[self.path] = file_hash"]
     if [ast.unparse(s) for s in el.body] != want:
@@ -508,17 +531,23 @@ FKINDS = ["KRegular", "KSymlink", "KDirectory", "KMissing"]
 LSTAT_PREDICATES = {"islink": {"KRegular": False, "KSymlink": True, "KDirectory": False, "KMissing": False}}
 
 
-def _kind_conjuncts(test, var, required, where):
+def _kind_conjuncts(test, var, required, where, state_var=None):
     """`test` must be a conjunction that contains each source text in `required` exactly once; every other conjunct
-    must be `<var>.<lstat predicate>()` or its negation.  Returns kind -> bool: for which kinds of `<var>` the
-    remaining (required) conjuncts are evaluated at all."""
+    must be `<var>.<lstat predicate>()` or its negation, or -- when `state_var` is given -- a test on the file state
+    (evaluated for every FileState).  Returns kind -> bool: for which kinds of `<var>` the remaining (required)
+    conjuncts are evaluated at all; with `state_var` also the list of state names for which they are."""
     conj = test.values if isinstance(test, ast.BoolOp) and isinstance(test.op, ast.And) else [test]
     seen = []
     table = {k: True for k in FKINDS}
+    states = None
     for c in conj:
         txt = _ws(ast.unparse(c))
         if txt in required:
             seen.append(txt)
+            continue
+        if state_var is not None and state_var in {n.id for n in ast.walk(c) if isinstance(n, ast.Name)}:
+            got = set(_state_predicate(c, state_var, where))
+            states = got if states is None else states & got
             continue
         neg = False
         inner = c
@@ -532,6 +561,9 @@ def _kind_conjuncts(test, var, required, where):
             table[k] = table[k] and (LSTAT_PREDICATES[inner.func.attr][k] != neg)
     if sorted(seen) != sorted(required):
         raise TranslatorError(f"{where}: expected the conjunct(s) {required}, found {seen}")
+    if state_var is not None:
+        en = importlib.import_module("stepup.core.enums")
+        return table, [st.name for st in en.FileState if states is None or st.name in states]
     return table
 
 
@@ -773,9 +805,9 @@ def translate_clean(en):
     ch = [v for v in assigns["changed"] if not (isinstance(v, ast.Constant) and v.value is False)]
     if len(ch) != 1:
         raise TranslatorError("clean.clean: `changed` is not False when missing and one expression otherwise")
-    clean_checked = _kind_conjuncts(ch[0], "lo_consuming_path",
-                                    ["state != FileState.VOLATILE",
-                                     "old_file_hash.refreshed(lo_consuming_path) != old_file_hash"], "clean.clean")
+    clean_checked, clean_compared = _kind_conjuncts(
+        ch[0], "lo_consuming_path", ["old_file_hash.refreshed(lo_consuming_path) != old_file_hash"], "clean.clean",
+        state_var="state")
     clean_skips_linked = any(_is_linked_parent_guard(n, "lo_consuming_path") for n in ast.walk(cfn) if isinstance(n, ast.If))
     if clean_skips_linked:
         _check_has_linked_parent()
@@ -789,7 +821,7 @@ def translate_clean(en):
         raise TranslatorError("clean: --unsafe option changed")
     if "'--commit', action='store_true', default=False" not in src or "'--all', action='store_true', default=False" not in src:
         raise TranslatorError("clean: --commit/--all options changed")
-    return states, missing_follows, clean_checked, clean_skips_linked
+    return states, missing_follows, clean_checked, clean_skips_linked, clean_compared
 
 
 # ---------------------------------------------------------------------------------------------
@@ -918,7 +950,7 @@ def generate():
     table = translate_hash_transitions()
     r_need, r_from, r_to, r_exempt, r_step_to = translate_revert(en)
     rdf_checked, rdf_decide_first, rdf_requeues, rdf_skips_linked = translate_remove(en)
-    clean_states, clean_missing_follows, clean_checked, clean_skips_linked = translate_clean(en)
+    clean_states, clean_missing_follows, clean_checked, clean_skips_linked, clean_compared = translate_clean(en)
     sites, callers = scan_removal_sites()
     unknown = [s for s in sites if s not in KNOWN_REMOVAL_SITES]
     if unknown:
@@ -1032,6 +1064,8 @@ def generate():
         f"Definition clean_skips_linked_parents : bool := {'true' if clean_skips_linked else 'false'}.",
         "(* clean.py clean: `missing` follows symbolic links (exists) or not (lexists); kinds for which the hash is compared *)",
         f"Definition clean_missing_follows_links : bool := {'true' if clean_missing_follows else 'false'}.",
+        "(* file states for which `changed` compares the hash at all (the state conjuncts of `changed`, evaluated) *)",
+        f"Definition clean_compared_states : list N := {S(clean_compared)}.",
         "Definition clean_hash_checked (k : fkind) : bool :=",
         "  match k with " + " | ".join(f"{k} => {'true' if clean_checked[k] else 'false'}" for k in FKINDS) + " end.",
         "",
